@@ -277,6 +277,11 @@ func c17Algebra(c *Ctx) {
 	// aggregates
 	if !c.Failed() {
 		mc := genSet64(r, 2)
+		if r.Chance(0.3) {
+			// stretch the bucket range to both ends of the key space (many chunk specs for the parallel union)
+			mc.Add(r.Range(0, 1000))
+			mc.Add(maxU64 - r.Range(0, 1000))
+		}
 		C, es := build64(r, mc, forms64[r.Intn(len(forms64))])
 		if es != "" {
 			return
@@ -300,8 +305,22 @@ func c17Algebra(c *Ctx) {
 			if d := checkEq64(roaring64.FastAnd(list...), and); d != "" {
 				c.Fail("64/FastAnd/result", "%s", d)
 			}
-			for _, w := range []int{0, 1, 3} {
-				res := roaring64.ParOr(w, append([]*roaring64.Bitmap(nil), list...)...)
+			for _, w := range []int{0, 1, 3, []int{2, 7, 33, 64}[r.Intn(4)]} {
+				var res *roaring64.Bitmap
+				// "always returns" is part of the contract: a confirmed blocked-forever state is a violation
+				verdict, detail, pv := callWithWatchdog(func() { res = roaring64.ParOr(w, append([]*roaring64.Bitmap(nil), list...)...) })
+				if verdict == "deadlock" {
+					c.Fail("64/ParOr/deadlock", "roaring64.ParOr(workers=%d) never returned: all its goroutines are parked on channel operations:\n%s", w, detail)
+					return
+				}
+				if verdict != "ok" {
+					c.Note("ParOr watchdog fired without confirmation")
+					return
+				}
+				if pv != nil {
+					c.Fail("64/ParOr/panic", "roaring64.ParOr(workers=%d) panicked: %v", w, pv)
+					return
+				}
 				if d := checkEq64(res, or); d != "" {
 					c.Fail("64/ParOr/result", "ParOr(workers=%d): %s", w, d)
 				}
